@@ -743,10 +743,16 @@ done:
 			}
 		case *Filter:
 			if int(fi) == len(wx)-1 { // last one
+				// Evaluate the filter for every element before any is changed
+				// so that a script that refers to $ sees the data as Get does.
 				switch tv := prev.(type) {
 				case []any:
+					matches := make([]bool, len(tv))
 					for i, vv := range tv {
-						if tf.matchWithRoot(vv, data) {
+						matches[i] = tf.matchWithRoot(vv, data)
+					}
+					for i, vv := range tv {
+						if matches[i] {
 							if nv, changed := modifier(vv); changed {
 								tv[i] = nv
 								if one && changed {
@@ -757,10 +763,13 @@ done:
 					}
 				case Indexed:
 					size := tv.Size()
+					matches := make([]bool, size)
 					for i := 0; i < size; i++ {
-						v = tv.ValueAtIndex(i)
-						if tf.matchWithRoot(v, data) {
-							if nv, changed := modifier(v); changed {
+						matches[i] = tf.matchWithRoot(tv.ValueAtIndex(i), data)
+					}
+					for i := 0; i < size; i++ {
+						if matches[i] {
+							if nv, changed := modifier(tv.ValueAtIndex(i)); changed {
 								tv.SetValueAtIndex(i, nv)
 								if one && changed {
 									break done
@@ -769,8 +778,12 @@ done:
 						}
 					}
 				case gen.Array:
+					matches := make([]bool, len(tv))
 					for i, vv := range tv {
-						if tf.matchWithRoot(vv, data) {
+						matches[i] = tf.matchWithRoot(vv, data)
+					}
+					for i, vv := range tv {
+						if matches[i] {
 							if nv, changed := modifier(vv); changed {
 								tv[i] = nv.(gen.Node)
 								if one && changed {
@@ -784,11 +797,14 @@ done:
 					switch rv.Kind() {
 					case reflect.Slice:
 						cnt := rv.Len()
+						matches := make([]bool, cnt)
 						for i := 0; i < cnt; i++ {
-							iv := rv.Index(i)
-							vv := iv.Interface()
-							if tf.matchWithRoot(vv, data) {
-								if nv, changed := modifier(vv); changed {
+							matches[i] = tf.matchWithRoot(rv.Index(i).Interface(), data)
+						}
+						for i := 0; i < cnt; i++ {
+							if matches[i] {
+								iv := rv.Index(i)
+								if nv, changed := modifier(iv.Interface()); changed {
 									iv.Set(reflect.ValueOf(nv))
 									if one && changed {
 										break done
@@ -801,11 +817,13 @@ done:
 						sort.Slice(keys, func(i, j int) bool {
 							return strings.Compare(keys[i].String(), keys[j].String()) < 0
 						})
-						for _, k := range keys {
-							ev := rv.MapIndex(k)
-							vv := ev.Interface()
-							if tf.matchWithRoot(vv, data) {
-								if nv, changed := modifier(vv); changed {
+						matches := make([]bool, len(keys))
+						for i, k := range keys {
+							matches[i] = tf.matchWithRoot(rv.MapIndex(k).Interface(), data)
+						}
+						for i, k := range keys {
+							if matches[i] {
+								if nv, changed := modifier(rv.MapIndex(k).Interface()); changed {
 									rv.SetMapIndex(k, reflect.ValueOf(nv))
 									if one && changed {
 										break done
